@@ -24,7 +24,7 @@ def vectorToGrads (vec : List α) : List Nat → List (List α)
 /-- `.view(param.size())` of a slice for a 2-D parameter with `cols` columns: entry `(i, j)` is `slice[i*cols + j]` -/
 def viewEntry [Inhabited α] (slice : List α) (cols i j : Nat) : α := slice.getD (i * cols + j) default
 
-variable [Add α] [Mul α] [Neg α] [Sub α] [Div α] [Zero α] [One α] [Transc α]
+variable [Add α] [Mul α] [Neg α] [Sub α] [Div α] [Zero α] [One α] [Transc α] [LT α] [DecidableLT α]
 variable {n h a : Nat}
 
 /-- numel of the parameters of a BinaryRBM in `parameters()` order: weights, visible_bias, hidden_bias -/
